@@ -159,6 +159,13 @@ def rng(ctx, e, depth=0):
     if t == "call" and isinstance(e[1], str):
         nm = e[1]
         args = e[2]
+        if cmp_op(e) is not None:
+            return (0, 1)
+        if nm.endswith("saturating_sub") and len(args) == 2:
+            a, b = rng(ctx, args[0], depth + 1), rng(ctx, args[1], depth + 1)
+            if a and b and a[0] >= 0 and b[0] >= 0:
+                return (max(0, a[0] - b[1]), max(0, a[1] - b[0]))
+            return None
         for suf, r in CALL_RANGE.items():
             if nm.endswith(suf):
                 return r
@@ -170,13 +177,8 @@ def rng(ctx, e, depth=0):
             return TYPE_RANGE.get(m.group(1)) if m else None
         if nm.endswith("cmp::min") or nm.endswith("Ord::min"):
             rs = [rng(ctx, a, depth + 1) for a in args]
-            his = [r[1] for r in rs if r]
-            los = [r[0] for r in rs if r]
-            if his and len(los) == len(rs):
-                return (min(los), min(his))
-            if his:
-                lo_t = None
-                return (TYPE_MIN_UNKNOWN, min(his)) if False else None if not los else (min(los), min(his))
+            if all(rs):
+                return (min(r[0] for r in rs), min(r[1] for r in rs))
             return None
         if nm.endswith("cmp::max") or nm.endswith("Ord::max"):
             rs = [rng(ctx, a, depth + 1) for a in args]
